@@ -311,3 +311,67 @@ def gen(rng, tier):
         out.append({"sx": sx(case), "meta": {"kind": "asr", "algo": algo, "ntips": len(tips), "sites": L, "rr": rr,
                                               "ambiguous": amb, "case": case_mode, "unknown": unknown, "rooted": len(t["slots"]) == 2}})
     return out
+
+
+# ---- multi-site alignments whose consecutive sites alternate "clade disjoint from the rest" and "ambiguous clade"
+def _clade_nodes(t):
+    """inner non-root nodes with at least 2 leaves below and at least 2 leaves elsewhere"""
+    allv = leaves(t)
+    res = []
+    for n in list(preorder(t))[1:]:
+        if len(n["slots"]) >= 2:
+            lv = leaves(n)
+            if len(lv) >= 2 and len(allv) - len(lv) >= 2:
+                res.append(lv)
+    return res
+
+def gen_clade_sites(rng, tier):
+    n = {"quick": 100, "thorough": 2500, "search": 300}[tier]
+    g = Gen(rng)
+    out = []
+    while len(out) < n:
+        t = g.tree(lo=4, hi=7, maxdeg=rng.choice([2, 3, 4]), lenmode="mixed", supmode="mixed",
+                   inner_names=False, comments=False, up_random=rng.random() < 0.5)
+        clades = _clade_nodes(t)
+        if not clades:
+            continue
+        clade = set(rng.choice(clades))
+        tips = leaves(t)
+        L = rng.randint(3, 6)
+        cols = []
+        # at least two consecutive "split" sites somewhere, the other sites drawn among the patterns
+        kinds = [rng.choice(["split", "split", "amb", "const", "mixed"]) for _ in range(L)]
+        p = rng.randrange(0, L - 1)
+        kinds[p] = kinds[p + 1] = "split"
+        for kd in kinds:
+            x, y = rng.sample("ACGT", 2)
+            col = {}
+            for tp in tips:
+                inside = tp in clade
+                if kd == "split":
+                    col[tp] = x if inside else y
+                elif kd == "amb":
+                    col[tp] = rng.choice([x, y]) if inside else y
+                elif kd == "const":
+                    col[tp] = x
+                else:
+                    col[tp] = rng.choice("ACGT")
+            cols.append(col)
+        case_mode = rng.choice(["upper", "upper", "lower"])
+        aln = [[tp, "".join(c[tp] for c in cols)] for tp in tips]
+        if case_mode == "lower":
+            aln = [[a, b.lower()] for a, b in aln]
+        rng.shuffle(aln)
+        algo = rng.choice(["deltran", "deltran", "acctran", "downpass"])
+        case = {"kind": Sym("asr"), "tree": T(t), "aln": aln, "algo": Sym(algo), "sitewise": True}
+        out.append({"sx": sx(case), "meta": {"kind": "asr", "algo": algo, "ntips": len(tips), "sites": L, "rr": False,
+                                              "ambiguous": False, "case": case_mode, "unknown": False, "stream": "clade-sites",
+                                              "rooted": len(t["slots"]) == 2}})
+    return out
+
+_gen_before_clade_sites = gen
+
+def gen(rng, tier):
+    out = _gen_before_clade_sites(rng, tier)
+    out += gen_clade_sites(rng, tier)
+    return out
